@@ -36,8 +36,12 @@ var c12StrBoundaries = []c12LV{
 	{"replacement-char", C12Val{S: "�"}},
 	{"len127", C12Val{S: "x", R: 127}},
 	{"len128", C12Val{S: "x", R: 128}},
+	{"len1023", C12Val{S: "k", R: 1023}},
+	{"len1024", C12Val{S: "k", R: 1024}},
+	{"len4096", C12Val{S: "p", R: 4096}},
 	{"len16383", C12Val{S: "y", R: 16383}},
 	{"len16384", C12Val{S: "y", R: 16384}},
+	{"len65536", C12Val{S: "w", R: 65536}},
 	{"multibyte-len16384", C12Val{S: "€", R: 5462}},
 }
 
@@ -69,7 +73,14 @@ func c12Boundaries(fd protoreflect.FieldDescriptor, top bool) []c12LV {
 	case protoreflect.BoolKind:
 		return []c12LV{{"false", C12Val{}}, {"true", C12Val{B: true}}}
 	case protoreflect.StringKind:
-		out := append([]c12LV{}, c12StrBoundaries...)
+		var out []c12LV
+		for _, b := range c12StrBoundaries {
+			// quick tier: the 4 KiB / 64 KiB strings only for fields of the root message
+			if b.v.R >= 4096 && b.v.R != 16383 && b.v.R != 16384 && b.v.R != 5462 && !top && !ev.Thorough() {
+				continue
+			}
+			out = append(out, b)
+		}
 		if top {
 			// 3- to 4-byte length prefix; 2 MiB per case, so the quick tier takes one side only
 			if ev.Thorough() {
@@ -80,7 +91,8 @@ func c12Boundaries(fd protoreflect.FieldDescriptor, top bool) []c12LV {
 		return out
 	case protoreflect.BytesKind:
 		out := []c12LV{{"empty", C12Val{}}, {"00", C12Val{X: []byte{0}}}, {"ff80", C12Val{X: []byte{0xff, 0x80}}},
-			{"len127", C12Val{X: []byte{1}, R: 127}}, {"len128", C12Val{X: []byte{1}, R: 128}}, {"len16384", C12Val{X: []byte{2}, R: 16384}}}
+			{"len127", C12Val{X: []byte{1}, R: 127}}, {"len128", C12Val{X: []byte{1}, R: 128}}, {"len1024", C12Val{X: []byte{3}, R: 1024}},
+			{"len16384", C12Val{X: []byte{2}, R: 16384}}, {"len65536", C12Val{X: []byte{4}, R: 65536}}}
 		return out
 	case protoreflect.EnumKind:
 		vals := fd.Enum().Values()
@@ -368,7 +380,8 @@ var (
 	c12GenSmallU  = rapid.Uint64Range(0, 300)
 	c12GenBool    = rapid.Bool()
 	c12GenBytes   = rapid.SliceOfN(rapid.Byte(), 0, 12)
-	c12LongLens   = []int{127, 128, 129, 300, 16383, 16384, 70000}
+	// length classes (bytes for the one-byte unit): a class is drawn uniformly, then a member
+	c12LenClasses = [][]int{{0}, {1, 2, 3, 5, 8, 16}, {127, 128, 129}, {1023, 1024, 1025}, {4095, 4096, 4097}, {16383, 16384, 16385}, {65535, 65536, 70000}}
 )
 
 func c12GenScalar(t *rapid.T, fd protoreflect.FieldDescriptor) C12Val {
@@ -389,14 +402,24 @@ func c12GenScalar(t *rapid.T, fd protoreflect.FieldDescriptor) C12Val {
 		case 2:
 			return C12Val{S: strings.ToValidUTF8(c12GenUni.Draw(t, "s"), "?")}
 		}
-		if rapid.IntRange(0, 3).Draw(t, "long") == 0 {
-			unit := rapid.SampledFrom([]string{"x", "ü", "€", "ab"}).Draw(t, "unit")
-			return C12Val{S: unit, R: rapid.SampledFrom(c12LongLens).Draw(t, "len")}
+		// a string of a drawn length class (0, 1..16, around 128, 1024, 4096, 16384, >= 65535)
+		cls := c12LenClasses[rapid.IntRange(0, len(c12LenClasses)-1).Draw(t, "lenclass")]
+		n := cls[rapid.IntRange(0, len(cls)-1).Draw(t, "len")]
+		if n == 0 {
+			return C12Val{}
 		}
-		return C12Val{S: c12GenAscii.Draw(t, "s")}
+		unit := "x"
+		if rapid.IntRange(0, 3).Draw(t, "unit") == 3 {
+			unit = rapid.SampledFrom([]string{"ü", "€", "ab"}).Draw(t, "mb")
+		}
+		return C12Val{S: unit, R: n}
 	case protoreflect.BytesKind:
 		if mode == 0 {
 			return bnd()
+		}
+		if mode == 3 {
+			cls := c12LenClasses[rapid.IntRange(0, len(c12LenClasses)-1).Draw(t, "lenclass")]
+			return C12Val{X: []byte{byte(rapid.IntRange(0, 255).Draw(t, "byte"))}, R: cls[rapid.IntRange(0, len(cls)-1).Draw(t, "len")]}
 		}
 		return C12Val{X: c12GenBytes.Draw(t, "x")}
 	case protoreflect.EnumKind:
@@ -512,9 +535,6 @@ func c12GenField(t *rapid.T, fd protoreflect.FieldDescriptor, depth int, g c12Ge
 		seen := map[string]bool{}
 		for j := 0; j < n; j++ {
 			k := c12GenScalar(t, fd.MapKey())
-			if fd.MapKey().Kind() == protoreflect.StringKind && k.R > 300 {
-				k.R = 300
-			}
 			ks := c12KeyString(fd.MapKey(), k)
 			v := c12GenElem(t, fd.MapValue(), depth, g)
 			if seen[ks] {
@@ -534,7 +554,11 @@ func c12GenField(t *rapid.T, fd protoreflect.FieldDescriptor, depth int, g c12Ge
 			break
 		}
 		for j := 0; j < n; j++ {
-			f.L = append(f.L, c12GenElem(t, fd, depth, g))
+			e := c12GenElem(t, fd, depth, g)
+			if j >= 3 && e.R > 1100 {
+				e.R = 1100 // long lists: only the first elements may be very long
+			}
+			f.L = append(f.L, e)
 		}
 	default:
 		v := c12GenElem(t, fd, depth, g)
